@@ -595,14 +595,14 @@ func (m *Monitors) c13(st *Step) []Finding {
 			m.Stats["c13.oper-grants"]++
 			if sb.Id != aid {
 				add("oper-granted:to-other", fmt.Sprintf("session %v became IRC operator", sb.Id))
-			} else if !operCredentials(B, sb, e.Data) {
+			} else if !operCredentials(m.credentials(B).Operators, sb, e.Data) {
 				add("oper-granted:without-credentials", "session became IRC operator")
 			}
 		}
 		if !sb.Server && sa.Server {
 			m.Stats["c13.server-grants"]++
 			ok := false
-			for _, pw := range B.Config.Services {
+			for _, pw := range m.credentials(B).Services {
 				if sb.Pass == "services="+pw {
 					ok = true
 				}
@@ -722,9 +722,9 @@ func actorId(a *verifview.Session) string {
 
 // operCredentials: a configured (name, password) pair must be present in the
 // line itself ("OPER name password") or in the stored PASS ("oper=name password").
-func operCredentials(B *verifview.View, s *verifview.Session, line string) bool {
+func operCredentials(operators [][2]string, s *verifview.Session, line string) bool {
 	fields := strings.Fields(line)
-	for _, op := range B.Config.Operators {
+	for _, op := range operators {
 		if len(fields) >= 3 && strings.EqualFold(fields[0], "OPER") && fields[1] == op[0] && strings.TrimPrefix(fields[2], ":") == op[1] {
 			return true
 		}
@@ -770,6 +770,109 @@ func banMatches(bans []verifview.Ban, hosts ...string) bool {
 	return false
 }
 
+// credentials returns the operator and services credentials of the configuration entry that
+// was applied last, as recorded when it was applied (not what a reloaded state claims).
+func (m *Monitors) credentials(before *verifview.View) *verifview.Config {
+	if m.cfg == nil {
+		c := before.Config
+		m.cfg = &c
+	}
+	return m.cfg
+}
+
+// trackConfig records the configuration when a Config entry has been applied.
+func (m *Monitors) trackConfig(st *Step) {
+	m.credentials(st.Before)
+	if st.Entry.Type == int64(robust.Config) && st.After.Config.Revision == st.Entry.Revision {
+		c := st.After.Config
+		m.cfg = &c
+		m.Stats["c13.configs-recorded"]++
+	}
+}
+
+type modelBan struct {
+	mask     string
+	addrMask string // mask with the session reference replaced by that session's address ("" if none)
+}
+
+var sessionRefRe = regexp.MustCompile(`robust/(0x[0-9a-fA-F]+)$`)
+
+var globCache = map[string]*regexp.Regexp{}
+
+// globMatch matches s against mask, '*' being the only wildcard, anchored at both
+// ends (the server matches unanchored, i.e. bans at least what this matches).
+func globMatch(mask, s string) bool {
+	re, ok := globCache[mask]
+	if !ok {
+		re = regexp.MustCompile("^" + strings.Replace(regexp.QuoteMeta(mask), "\\*", ".*", -1) + "$")
+		globCache[mask] = re
+	}
+	return re.MatchString(s)
+}
+
+// trackBans keeps the ban table in step with the masks the channels list: a mask that
+// appears through the actor's MODE +b is recorded with the address of the session it
+// names; masks that are no longer listed are dropped.
+func (m *Monitors) trackBans(st *Step) {
+	cmd, params := SplitInput(st.Entry.Data)
+	for i := range st.After.Channels {
+		c := &st.After.Channels[i]
+		listed := map[string]bool{}
+		for _, b := range c.Bans {
+			listed[b.Pattern] = true
+		}
+		tbl := m.bans[c.Key]
+		for mask := range tbl {
+			if !listed[mask] {
+				delete(tbl, mask)
+			}
+		}
+		if cmd != "MODE" || len(params) < 3 || FoldChan(params[0]) != c.Key {
+			continue
+		}
+		var before map[string]bool
+		if bc := st.Before.Channel(c.Key); bc != nil {
+			before = map[string]bool{}
+			for _, b := range bc.Bans {
+				before[b.Pattern] = true
+			}
+		}
+		for mask := range listed {
+			if before[mask] || (tbl != nil && tbl[mask] != nil) {
+				continue
+			}
+			mb := &modelBan{mask: mask}
+			if loc := sessionRefRe.FindStringSubmatchIndex(mask); loc != nil {
+				if id, err := strconv.ParseInt(mask[loc[2]:loc[3]], 0, 64); err == nil {
+					if bs := st.Before.SessionById(verifview.Id{Id: uint64(id)}); bs != nil {
+						addr := bs.RemoteAddr
+						if uint64(id) == st.Entry.Session && st.Entry.RemoteAddr != "" {
+							addr = st.Entry.RemoteAddr
+						}
+						if addr != "" {
+							mb.addrMask = mask[:loc[0]] + addr
+						}
+					}
+				}
+			}
+			if tbl == nil {
+				tbl = map[string]*modelBan{}
+				m.bans[c.Key] = tbl
+			}
+			tbl[mask] = mb
+			m.Stats["c13.bans-recorded"]++
+			if mb.addrMask != "" {
+				m.Stats["c13.bans-recorded-with-address"]++
+			}
+		}
+	}
+	for k := range m.bans {
+		if st.After.Channel(k) == nil {
+			delete(m.bans, k)
+		}
+	}
+}
+
 // joinEntitled evaluates the property's admission rule on the state before the
 // entry. It returns "" if the actor was entitled, otherwise the missing entitlement.
 func (m *Monitors) joinEntitled(st *Step, A *verifview.Session, c *verifview.Channel) string {
@@ -804,6 +907,18 @@ func (m *Monitors) joinEntitled(st *Step, A *verifview.Session, c *verifview.Cha
 	if banMatches(c.Bans, A.Prefix, A.Nick+"!"+A.Username+"@"+addr) {
 		m.Stats["c13.join-while-banned-seen"]++
 		return "banned"
+	}
+	// the monitor's own ban table (masks as they were set, session references resolved to the
+	// address the session had then), consulted for the masks the channel still lists
+	for _, b := range c.Bans {
+		mb := m.bans[c.Key][b.Pattern]
+		if mb == nil {
+			continue
+		}
+		if globMatch(mb.mask, A.Prefix) || (mb.addrMask != "" && globMatch(mb.addrMask, A.Nick+"!"+A.Username+"@"+addr)) {
+			m.Stats["c13.join-while-banned-seen(model)"]++
+			return "banned"
+		}
 	}
 	if c.HasMode('i') && !invited {
 		return "invite-only"
